@@ -34,37 +34,83 @@ def check(repo: Repo, R) -> None:
         return
     inet = ast.unparse(inets[0][1]["I"])
     R.ok(rule, key_of(fs, "internal-net"), fs.at(inets[0][0]), f"one internal net `{inet}` of width nser - 1, owned by the generated module")
-    sc = [k for k, v in defs.items() if ast.unparse(v) == f"_seriesconns(m, {p}.conns)"]
-    if not sc:
+    # the resolved series pair: `sc = _seriesconns(m, params.conns)` or `first, second = _seriesconns(...)`
+    A = B = None
+    pair_texts = []
+    for st in au.stmts(fs.node):
+        if isinstance(st, ast.Assign) and ast.unparse(st.value) == f"_seriesconns(m, {p}.conns)":
+            t = st.targets[0]
+            if isinstance(t, ast.Name):
+                A, B = f"{t.id}[0]", f"{t.id}[1]"
+                pair_texts = [t.id]
+            elif isinstance(t, ast.Tuple) and len(t.elts) == 2:
+                A, B = ast.unparse(t.elts[0]), ast.unparse(t.elts[1])
+                pair_texts = [f"({A}, {B})", f"[{A}, {B}]"]
+    if A is None:
         raise AnalysisError(f"idiom-unknown: series ports in {fs.site}")
-    sc = sc[0]
-    first = pat.find(f"unit_conns[{sc}[0].name] = h.Concat({sc}[0], {inet})", fs.node)
-    second = pat.find(f"unit_conns[{sc}[1].name] = h.Concat({inet}, {sc}[1])", fs.node)
-    R.check(bool(first) and bool(second), rule, key_of(fs, "offset-concats"), fs.site,
-            f"first series port of the array <- Concat(A, {inet}) ({bool(first)}); second <- Concat({inet}, B) ({bool(second)}): unit k's second port is {inet}[k] = unit k+1's first port, unit 0's first port is A, unit n-1's second port is B",
-            why="the chain is broken, reversed or closed on itself: a unit's two series ports land on the same bit, or the ends are not the module's ports")
-    arr = pat.find(f"m.add({p}.nser * {p}.unit(**unit_conns), name=$N)", fs.node)
+    # writes to the connection dict, in source order: (kind, key text, value text, line)
+    dvar = None
+    for c, b in pat.find(f"m.add({p}.nser * {p}.unit(**$D), name=$N)", fs.node):
+        dvar = ast.unparse(b["D"])
+    arr = pat.find(f"m.add({p}.nser * {p}.unit(**$D), name=$N)", fs.node)
+    writes = []
+    if dvar:
+        for st in au.stmts(fs.node):
+            if isinstance(st, ast.Assign) and ast.unparse(st.targets[0]) == dvar:
+                v = st.value
+                if isinstance(v, ast.Dict):
+                    for k, x in zip(v.keys, v.values):
+                        writes.append(("item", ast.unparse(k), ast.unparse(x), st.lineno))
+                elif isinstance(v, ast.DictComp):
+                    writes.append(("comp", ast.unparse(v.key), ast.unparse(v), st.lineno))
+                else:
+                    writes.append(("other", "", ast.unparse(v), st.lineno))
+            elif isinstance(st, ast.Assign) and isinstance(st.targets[0], ast.Subscript) and ast.unparse(st.targets[0].value) == dvar:
+                writes.append(("item", ast.unparse(st.targets[0].slice), ast.unparse(st.value), st.lineno))
+            elif isinstance(st, ast.Expr) and isinstance(st.value, ast.Call) and ast.unparse(st.value.func) == f"{dvar}.update" and st.value.args:
+                a0 = st.value.args[0]
+                writes.append(("comp" if isinstance(a0, ast.DictComp) else "other", "", ast.unparse(a0), st.lineno))
+    writes.sort(key=lambda w: w[3])
+    last_first = [w for w in writes if w[0] == "item" and w[1] == f"{A}.name"]
+    last_second = [w for w in writes if w[0] == "item" and w[1] == f"{B}.name"]
+    comps = [w for w in writes if w[0] == "comp"]
+    others = [w for w in writes if w[0] == "other"]
+    first_ok = bool(last_first) and last_first[-1][2] == f"h.Concat({A}, {inet})"
+    second_ok = bool(last_second) and last_second[-1][2] == f"h.Concat({inet}, {B})"
+    # the series entries are written after the parallel ones (they must win), and nothing unknown writes the dict
+    wins = bool(comps) and first_ok and second_ok and max(c[3] for c in comps) < min(last_first[-1][3], last_second[-1][3]) and not others
+    # ... unless the parallel set provably excludes the resolved series ports by identity
+    R.check(first_ok and second_ok and wins, rule, key_of(fs, "offset-concats"), fs.site,
+            f"first series port of the array <- Concat(A, {inet}) ({first_ok}); second <- Concat({inet}, B) ({second_ok}); these entries are the last writes of their keys ({wins}): "
+            f"unit k's second port is {inet}[k] = unit k+1's first port, unit 0's first port is A, unit n-1's second port is B",
+            why="the chain is broken, reversed or closed on itself — or the series entries are overwritten by the by-name parallel wiring, so that all units sit in parallel across the two series ports")
     R.check(len(arr) == 1, rule, key_of(fs, "array"), fs.site, f"an array of nser instances of the unit, connected by the connection dict: {len(arr) == 1}", why="the number of units differs from nser")
-    par = bool(pat.find(f"par_ports = [port for port in m.ports.values() if port not in {sc}]", fs.node)) and bool(pat.find("unit_conns = {port.name: port for port in par_ports}", fs.node))
-    R.check(par, rule, key_of(fs, "parallel-ports"), fs.site, f"every non-series port of the unit is wired to the module port of the same name: {par}", why="parallel ports (gate, bulk, ...) are left open or crossed")
+    # parallel ports: every module port that is not one of the two resolved series ports (by identity), wired by name
+    par = False
+    for n in au.walk_no_nested(fs.node):
+        if isinstance(n, (ast.ListComp, ast.DictComp)) and len(n.generators) == 1 and ast.unparse(n.generators[0].iter) == "m.ports.values()":
+            ifs = [ast.unparse(i) for i in n.generators[0].ifs]
+            tv = ast.unparse(n.generators[0].target)
+            par = any(ifs == [f"{tv} not in {pt}"] for pt in pair_texts)
+    byname = any(w[0] == "comp" and ".name:" in w[2].replace(" ", "").replace(".name:", ".name:") for w in comps) and all(pat.match("{$P.name: $P for $P in $X}", ast.parse(w[2], mode="eval").body) is not None for w in comps)
+    R.check(par and byname, rule, key_of(fs, "parallel-ports"), fs.site,
+            f"the parallel ports are the module ports that are not one of the two resolved series ports (identity test against the resolved pair: {par}), each wired to the unit port of its own name ({byname})",
+            why="with series ports given as Signals a test by name against params.conns never matches: the series ports are wired in parallel too; or parallel ports are left open / crossed")
     ports = [n for n in au.walk_no_nested(fs.node) if isinstance(n, ast.For) and ast.unparse(n.iter) == f"{p}.unit.ports.values()"]
     ok = len(ports) == 1 and bool(pat.find("m.add(deepcopy(p))", ports[0]))
     R.check(ok, rule, key_of(fs, "ports-cloned"), fs.site, f"the generated module has a copy of each unit port: {ok}", why="module ports differ from the unit's")
-    # order: concats assigned after the parallel dict is built and before the array is created
-    lines = {"par": None, "c1": first[0][0].lineno if first else None, "c2": second[0][0].lineno if second else None, "arr": arr[0][0].lineno if arr else None}
-    for st in au.stmts(fs.node):
-        if isinstance(st, ast.Assign) and ast.unparse(st.targets[0]) == "unit_conns":
-            lines["par"] = st.lineno
-    ok = None not in lines.values() and lines["par"] < lines["c1"] and lines["par"] < lines["c2"] and max(lines["c1"], lines["c2"]) < lines["arr"]
-    R.check(ok, rule, key_of(fs, "order"), fs.site, f"series entries overwrite the by-name dict before the array is connected: {ok}", why="the array is connected before (or without) the series concatenations")
+    arr_after = bool(arr) and bool(writes) and max(w[3] for w in writes) < arr[0][0].lineno
+    R.check(arr_after, rule, key_of(fs, "order"), fs.site, f"the array is connected after the connection dict is complete: {arr_after}", why="the array is connected before (or without) the series concatenations")
 
     rule = "C19.2-series-corner-cases"
     lt = any(isinstance(n, ast.If) and au.cmp_norm(n.test) == au.cmp_norm(ast.parse(f"{p}.nser < 1", mode="eval").body) and au.raises(n.body) for n in au.walk_no_nested(fs.node))
     one = any(isinstance(n, ast.If) and au.cmp_norm(n.test) == au.cmp_norm(ast.parse(f"{p}.nser == 1", mode="eval").body) and ast.unparse(n.body[-1]) == f"return Wrapper({p}.unit)" for n in au.walk_no_nested(fs.node))
     R.check(lt and one, rule, key_of(fs), fs.site, f"nser < 1 raises ({lt}); nser == 1 is a plain Wrapper of the unit ({one})", why="nser = 1 builds a zero-width net; nser = 0 builds an empty module")
     fsc = repo.func(F_GENERATORS, "_seriesconns")
-    ok = bool(pat.find("(_seriesconn(m, conns[0]), _seriesconn(m, conns[1]))", fsc.node))
-    R.check(ok, rule, key_of(fsc), fsc.site, f"the two series ports are taken in the order given: {ok}", why="first and second series port are exchanged")
+    dsc = au.local_defs(fsc.node)
+    rets = [n for n in au.walk_no_nested(fsc.node) if isinstance(n, ast.Return)]
+    ok = len(rets) == 1 and ast.unparse(au.expand(rets[0].value, dsc, depth=1)) == "(_seriesconn(m, conns[0]), _seriesconn(m, conns[1]))"
+    R.check(ok, rule, key_of(fsc), fsc.site, f"the pair is returned as (resolve(conns[0]), resolve(conns[1])) — in the caller's order, not re-derived from the port list: {ok}", why="a pair named against the unit's declaration order (('s','d') on a Mos) is silently swapped: the chain is built from the wrong end")
     f1 = repo.func(F_GENERATORS, "_seriesconn")
     by_sig = any(isinstance(n, ast.If) and ast.unparse(n.test) == "isinstance(conn, h.Signal)" and bool(pat.find("rv = m.ports.get(conn.name, None)", n)) for n in au.walk_no_nested(f1.node))
     by_name = any(isinstance(n, ast.If) and ast.unparse(n.test) == "isinstance(conn, str)" and bool(pat.find("rv = m.ports.get(conn, None)", n)) for n in au.walk_no_nested(f1.node))
